@@ -17,6 +17,7 @@ RULE = ('grammar-directed random programs (profiles sequential/deep: 1-5 functio
         '2,3,4 (8 on a sample) x generous stack + 2 tight stacks; a case is one (program, args); non-trivial = the '
         'model executed >= 1 user call and the committed output has >= 20 bytes; distinct by hash of (source, args)')
 ASSUMPTIONS = common.ISA_ASSUMPTIONS
+REQUIRED_HIDC_FUNCTIONS = ['codegen/generator:CodeGen.eval_expr', 'codegen/generator:CodeGen.eval_func_call', 'codegen/generator:CodeGen.lookup_var']     # M-COV: deciding code never entered => inconclusive
 MIN_NONTRIVIAL = {'quick': 100, 'thorough': 1000}
 MAX_STEPS = 400_000
 
